@@ -20,6 +20,8 @@
 #include <type_traits>
 #include <typeinfo>
 #include <vector>
+#include <csignal>
+#include <unistd.h>
 
 namespace vf {
 
@@ -256,6 +258,7 @@ struct Args {
     std::string spec_path;        ///< explicit case
     bool list = false;
     int samples = 2;
+    unsigned case_timeout = 0;    ///< per-case watchdog in seconds (0 = none): the worker exits with status 124
     std::map<std::string, std::string> extra;
     std::string get(const std::string &k, const std::string &d = "") const {
         auto it = extra.find(k);
@@ -416,6 +419,7 @@ inline Args parse_args(int argc, char **argv) {
         } else if (k == "--spec") a.spec_path = val();
         else if (k == "--samples") a.samples = atoi(val().c_str());
         else if (k == "--list") a.list = true;
+        else if (k == "--case-timeout") a.case_timeout = unsigned(atoi(val().c_str()));
         else if (k.rfind("--x-", 0) == 0) a.extra[k.substr(4)] = val();
         else {
             fprintf(stderr, "unknown argument %s\n", k.c_str());
@@ -459,6 +463,8 @@ inline int vf_main(int argc, char **argv, const char *engine) {
             printf("%s\n", c.name.c_str());
         return 0;
     }
+    if (a.case_timeout) // a case that makes no progress ends the worker; the driver re-runs it alone before calling it a hang
+        signal(SIGALRM, [](int) { _exit(124); });
     FILE *out = a.out.empty() ? stdout : fopen(a.out.c_str(), "a");
     if (!out) {
         fprintf(stderr, "cannot open %s\n", a.out.c_str());
@@ -500,7 +506,9 @@ inline int vf_main(int argc, char **argv, const char *engine) {
                 c.given = &given;
             fprintf(out, "B %zu %" PRIu64 "\n", ci, k);
             fflush(out);
+            if (a.case_timeout) alarm(a.case_timeout);
             run_one(c);
+            if (a.case_timeout) alarm(0);
             ++totals().cases;
             fprintf(out, "E %zu %" PRIu64 " %016" PRIx64 " %d %d\n", ci, k, c.input_hash, c.nontrivial ? 1 : 0,
                     c.violations_in_case);
